@@ -551,6 +551,21 @@ def check(run, replay=None):
     run.cov['translator'] = {'functions': len(fl), 'translated': sum(1 for f in fl if f['translated']),
                              'untranslated': {f['name']: f['why'] for f in fl if not f['translated']},
                              'pairs': len(META['pairs']), 'pairs_translated': sum(1 for q in META['pairs'] if q['translated'])}
+    ob = META.get('obligations', {})
+    rt = ob.get('rt', [])
+    gen_n = len(ob.get('rt_names', [])) + len(ob.get('guard_names', []))
+    built = run.cov['discharged'] == run.cov['obligations'] and run.cov['obligations'] > 0
+    run.cov['generated_obligations'] = {
+        'file': 'coq/Gen/GenObligations.v (regenerated from the C++ on this run; each is an Example closed by vm_compute; the property file imports it)',
+        'count': gen_n, 'discharged': gen_n if built else 0,
+        'rt_pairs_proved': sum(1 for x in rt if x['status'] == 'proved'),
+        'rt_pairs_proved_except_known_finding': {x['pair']: x.get('excluded_known') for x in rt if x['status'] == 'partial'},
+        'rt_pairs_outside_generic_theorem': {x['pair']: x.get('why') for x in rt if x['status'] == 'shape'},
+        'rt_pairs_untranslated': [x['pair'] for x in rt if x['status'] == 'untranslated'],
+        'guard_proved': sum(1 for x in ob.get('guard', []) if x['status'] == 'proved'),
+        'guard_not_provable': [x['fn'] for x in ob.get('guard', []) if x['status'] != 'proved']}
+    run.cov['obligations'] += gen_n
+    run.cov['discharged'] += gen_n if built else 0
     if replay:
         cases = vlib.read_replay(replay)
     else:
